@@ -312,50 +312,79 @@ async def run_out(cases):
     return [r for _i, r in results]
 
 
+NAME_IDS = {"context": 1, "blocking": 2, "return_response": 3, "limit": 4, "entity_id": 5}
+
+
+def canon_val(k, v):
+    """observed value -> [type code, value]"""
+    if type(v).__name__ == "Context":
+        return [1, 0]
+    if isinstance(v, bool):
+        return [2, int(v)]
+    if isinstance(v, float):
+        return [3, int(v)]
+    if isinstance(v, int):
+        return [4, v]
+    if isinstance(v, str):
+        if k == "entity_id":
+            return [5, 1 if v == "pvd.ent1" else 0]
+        return [5, int(v[1:]) if v[:1] == "v" and v[1:].isdigit() else -1]
+    if v is None:
+        return [6, 0]
+    return [7, 0]
+
+
 def canon_seen(s):
     data = []
     for k, v in s["data"].items():
-        if k == "entity_id":
-            data.append([5, 5, 1 if v == "pvd.ent1" else 0])
-        elif k == "context":
-            data.append([1, 6 if v is None else (1 if type(v).__name__ == "Context" else 7), 0])
-        elif k in ("blocking", "return_response", "limit") or (k.startswith("p") and k[1:].isdigit()):
-            kid = {"blocking": 2, "return_response": 3, "limit": 4}.get(k) or int(k[1:])
-            if isinstance(v, bool):
-                data.append([kid, 2, int(v)])
-            elif isinstance(v, float):
-                data.append([kid, 3, int(v)])
-            elif isinstance(v, int):
-                data.append([kid, 4, v])
-            elif isinstance(v, str):
-                data.append([kid, 5, int(v[1:]) if v[1:].isdigit() else 0])
-            elif v is None:
-                data.append([kid, 6, 0])
-            else:
-                data.append([kid, 7, 0])
-        else:
-            data.append([9999, 7, 0])
+        kid = NAME_IDS.get(k) or (int(k[1:]) if k.startswith("p") and k[1:].isdigit() else 9999)
+        data.append([kid] + canon_val(k, v))
     return {"data": sorted(data), "rr": s["rr"]}
 
 
-async def main():
-    req = json.loads(sys.stdin.read())
-    out = []
-    if req["op"] == "life":
-        for case in req["cases"]:
-            try:
-                out.append(await Life(case).run())
-            except Exception as exc:  # pylint: disable=broad-except
-                import traceback
+_TRACK = None
 
-                out.append({"error": f"{type(exc).__name__}: {exc}", "tb": traceback.format_exc()[-1500:]})
-    else:
-        out = await run_out(req["cases"])
-    return out
+
+def track_instances():
+    """remember (weakly) every EvalFunc / DecoratorManager created in this process"""
+    global _TRACK  # pylint: disable=global-statement
+    if _TRACK is not None:
+        return
+    import weakref
+
+    from custom_components.pyscript.decorator_abc import DecoratorManager
+    from custom_components.pyscript.eval import EvalFunc
+
+    _TRACK = weakref.WeakSet()
+    for cls in (EvalFunc, DecoratorManager):
+        orig = cls.__init__
+
+        def init(self, *a, _orig=orig, **kw):
+            _orig(self, *a, **kw)
+            _TRACK.add(self)
+
+        cls.__init__ = init
+
+
+def isolate():
+    """Several HomeAssistant instances live one after another in this process while pyscript keeps its service tables in
+    class attributes: function objects of a finished case that are garbage-collected later would run __del__/finalizers
+    against the tables of the next case.  Disarm every function object / decorator manager of the finished case."""
+    from custom_components.pyscript.decorator_abc import DecoratorManagerStatus
+    from custom_components.pyscript.eval import EvalFunc
+
+    for o in list(_TRACK):
+        if isinstance(o, EvalFunc):
+            o.trigger_service = set()
+            o.trigger = []
+        else:
+            o.status = DecoratorManagerStatus.STOPPED
+    _TRACK.clear()
 
 
 def _main():
     req = json.loads(sys.stdin.read())
+    track_instances()
     if req["op"] == "life":
         out = []
         for case in req["cases"]:
@@ -365,6 +394,7 @@ def _main():
                 import traceback
 
                 out.append({"error": f"{type(exc).__name__}: {exc}", "tb": traceback.format_exc()[-1500:]})
+            isolate()
     else:
         out = run_virtual(run_out(req["cases"]))
     print("RESULT " + json.dumps(out))
